@@ -178,4 +178,12 @@ def readRecord (t : Read.Target) (fields : List Field) (arrs : List Arr) (i : Na
   | none => fail "no such record"
   | some idx => Read.readAs Read.Fixes.all t root idx
 
+/-- `Deserializer::from_marrow(fields, views)` followed by the BULK read `Vec<T>::deserialize(deserializer)`: the same
+checks, then every index the bulk `SeqAccess` hands out (`Access.bulk len`, C13), each read into the target `t` -/
+def readAll (t : Read.Target) (fields : List Field) (arrs : List Arr) : R (List Read.DVal) := do
+  let len ← Access.new true fields.length (arrs.map Read.vlen)
+  let root := rootArr fields arrs len
+  Read.new Read.Fixes.all root
+  (Access.bulk len).mapM fun idx => Read.readAs Read.Fixes.all t root idx
+
 end SaModel.Roundtrip
